@@ -313,6 +313,11 @@ pub fn run(op: &str, args: &[&str]) -> Option<String> {
                 Err(_) => "ERR".to_string(),
             });
         }
+        "json_str" => {
+            let [h] = args else { return None };
+            let s = String::from_utf8(unhex(h)?).ok()?;
+            return Some(format!("OK {}", show_hex(serde_json::to_string(&s).ok()?.as_bytes())));
+        }
         "json" | "json_rt" | "json_de" => {}
         _ => return None,
     }
